@@ -405,28 +405,37 @@ fn ref_aggregate(a: &AggK, rows: &[&Vec<Value>]) -> Value {
         AggK::Stddev(_, var) => {
             if nn.is_empty() { return Value::Null; }
             // CODE-CHOICE (`code_choice`): POPULATION variance (divisor n; the sentence and the README do not say population or
-            // sample), computed here over EXACT rationals — not by the code's one-pass REAL formula: the generated INT values
-            // are integers and the REAL values multiples of 1/4, so with m = 4·x: Var(x) = (n·Σm² − (Σm)²) / (16·n²), one
-            // correctly rounded division. The implementation's REAL may differ from it by rounding (see `cells_match`).
-            let ms: Option<Vec<i128>> = nn.iter().map(|v| match v {
-                Value::Int(x) => Some(*x as i128 * 4),
+            // sample). Written from the TEXTBOOK definition σ² = (1/n)·Σ(x − μ)², not from the code:
+            // * INT values: σ² is the exact rational N / D with N = n·Σx² − (Σx)², D = n² (integers, exact in i128); demanded is
+            //   the REAL quotient of the REALs nearest to N and to D — BITWISE (`exact_cell`): the cell is then within one
+            //   rounding of the variance whenever N, D < 2^53, never negative, and 0 for equal values (finding D72, repaired;
+            //   Lean: Props/C04Variance.lean `int_variance_is_rounded_exact_quotient`).
+            // * REAL values (generated: multiples of 1/4): with m = 4·x the same over exact integers, one division; the
+            //   implementation's REAL (running REAL sums, one-pass formula, clamped at 0) may differ by rounding (`cells_match`,
+            //   relative 1e-12) but must never be negative or NaN (the reference never is).
+            let ints: Option<Vec<i128>> = nn.iter().map(|v| if let Value::Int(x) = v { Some(*x as i128) } else { None }).collect();
+            let quarters: Option<Vec<i128>> = nn.iter().map(|v| match v {
                 Value::Float(x) if (x.0 * 4.0).fract() == 0.0 && x.0.abs() < 1e12 => Some((x.0 * 4.0) as i128),
                 _ => None,
             }).collect();
-            let variance = match ms {
-                Some(ms) => {
-                    let n = ms.len() as i128;
-                    let s: i128 = ms.iter().sum();
-                    let q: i128 = ms.iter().map(|m| m * m).sum();
-                    (n * q - s * s) as f64 / (16 * n * n) as f64
-                }
-                None => {
-                    // values outside the exactly representable pool (not generated): the one-pass formula
-                    let xs: Vec<f64> = nn.iter().map(|v| match v { Value::Int(x) => *x as f64, Value::Float(x) => x.0, _ => 0.0 }).collect();
+            let exact = |ms: &[i128], scale: i128| -> f64 {
+                let n = ms.len() as i128;
+                let s: i128 = ms.iter().sum();
+                let q: i128 = ms.iter().map(|m| m * m).sum();
+                (n * q - s * s) as f64 / (scale * n * n) as f64
+            };
+            let variance = match (ints, quarters) {
+                (Some(is), _) => exact(&is, 1),
+                (_, Some(ms)) => exact(&ms, 16),
+                _ => {
+                    // REAL values outside the exactly representable pool (not generated): as the code — the one-pass
+                    // formula over running REAL sums, never negative
+                    let xs: Vec<f64> = nn.iter().map(|v| match v { Value::Float(x) => x.0, _ => 0.0 }).collect();
                     let n = xs.len() as f64;
                     let s: f64 = xs.iter().sum();
                     let q: f64 = xs.iter().map(|x| x * x).sum();
-                    (q - (s * s) / n) / n
+                    let v = (q - (s * s) / n) / n;
+                    if v < 0.0 { 0.0 } else { v }
                 }
             };
             Value::Float(Float(if *var { variance } else { variance.sqrt() }))
@@ -480,6 +489,19 @@ fn cells_match(a: &Value, b: &Value) -> bool {
 fn tables_match(a: &[Vec<Value>], b: &[Vec<Value>]) -> bool {
     a.len() == b.len() && a.iter().zip(b.iter()).all(|(r, t)| r.len() == t.len() && r.iter().zip(t.iter()).all(|(x, y)| cells_match(x, y)))
 }
+/// a select-list item whose REAL cell the reference fixes BIT FOR BIT: VARIANCE / STDDEV of an INT column (the exact
+/// numerator and denominator of the variance, two conversions, one division, for STDDEV one square root)
+fn exact_cell(it: &Item) -> bool {
+    matches!(it, Item::Agg(AggK::Stddev(c, _), None) if col_type(*c) == ValueType::Int)
+}
+fn bits_equal(a: &Value, b: &Value) -> bool {
+    match (a, b) { (Value::Float(x), Value::Float(y)) => x.0.to_bits() == y.0.to_bits(), _ => a == b }
+}
+/// `tables_match`, and bitwise equality in the columns of `exact_cell` items
+fn tables_match_q(q: &TypedQuery, a: &[Vec<Value>], b: &[Vec<Value>]) -> bool {
+    tables_match(a, b) && a.iter().zip(b.iter()).all(|(r, t)| r.len() != q.items.len() ||
+        r.iter().zip(t.iter()).zip(q.items.iter()).all(|((x, y), it)| !exact_cell(it) || bits_equal(x, y)))
+}
 
 /// The CHOICES of the code that the property sentence does not fix and this reference (like the Lean specification)
 /// mirrors: POPULATION variance (divisor n, not n − 1) for STDDEV / VARIANCE, PERCENTILE(p) = the nearest-rank element at
@@ -501,7 +523,10 @@ fn differs_only_in_code_choices(q: &TypedQuery, got: &[Vec<Value>], want: &[Vec<
     let mut found = None;
     for (r, t) in got.iter().zip(want) {
         for (i, (x, y)) in r.iter().zip(t).enumerate() {
-            if cells_match(x, y) { continue; }
+            if cells_match(x, y) && (!exact_cell(&q.items[i]) || bits_equal(x, y)) { continue; }
+            // an INT VARIANCE / STDDEV cell that agrees up to rounding but not bit for bit is not a matter of the code's CHOICE
+            // (population, not sample): given that choice the textbook definition fixes the cell (D72, repaired)
+            if cells_match(x, y) && exact_cell(&q.items[i]) { found.get_or_insert("int-variance-is-not-the-rounded-exact-quotient"); continue; }
             match &q.items[i] { Item::Agg(a, _) => match code_choice(a) { Some(c) => { found.get_or_insert(c); } None => return None }, _ => return None }
         }
     }
@@ -665,12 +690,14 @@ pub fn run(p: &Params) -> Run {
                 ("ok", rows.len())
             }
             RowsOutcome::Rows { rows, .. } => {
-                if !tables_match(rows, &expected.rows) {
+                if !tables_match_q(&q, rows, &expected.rows) {
                     // known finding D10 only if the table is EXACTLY the predicted one: the reference table without the
                     // groups in which no aggregate creates an entry (and no ARRAY_AGG starts with NULL: D15 predicts an
                     // error, so a table is then not what any finding predicts)
-                    let class = if expected.d10 && !expected.d15 && tables_match(rows, &expected.rows_d10) { "D10:group-without-value-entry".to_owned() }
-                        else if let Some(choice) = differs_only_in_code_choices(&q, rows, &expected.rows) { format!("code-choice:{}-cell-differs-from-reference", choice) }
+                    let class = if expected.d10 && !expected.d15 && tables_match_q(&q, rows, &expected.rows_d10) { "D10:group-without-value-entry".to_owned() }
+                        else if let Some(choice) = differs_only_in_code_choices(&q, rows, &expected.rows) {
+                            if choice.starts_with("int-variance") { choice.to_owned() } else { format!("code-choice:{}-cell-differs-from-reference", choice) }
+                        }
                         else { "aggregate-table-differs-from-reference".to_owned() };
                     let note = if expected.d15 { " (finding D15 predicts the error `Cannot create array of null type` here)".to_owned() } else if expected.d10 { format!(" (finding D10 predicts {:?})", expected.rows_d10) } else { String::new() };
                     run.fail(desc.clone(), &class, format!("implementation table {:?} but the rows of each group give {:?}{}", rows, expected.rows, note));
@@ -694,6 +721,48 @@ pub fn run(p: &Params) -> Run {
         let result = run_files(&prepared, &files);
         if let Some(case) = batch_case(&prepared, b"", &files, None) {
             run.case_with_desc(case, result.wire(), typed_tag(&q, outcome, nrows, &expected), desc);
+        }
+    }
+    // ---- stream 3: VARIANCE / STDDEV of INT values of large magnitude (finding D72, repaired) ----
+    // 1-6 values around ± a large base (Σx² up to 8.6e18 still fits an i64): equal values, tiny spreads on a huge mean, and
+    // mixed signs whose numerator n·Σx² − (Σx)² is far beyond 53 bits. The oracle is the textbook variance over exact
+    // integers (`ref_aggregate`), demanded BITWISE; the same case goes to the Lean model (correspondence: `F64.ofInt` of
+    // numerators up to 2^66 against Rust's `i128 as f64`).
+    let m3 = p.n(160, 4000);
+    for _ in 0..m3 {
+        let n = 1 + rng.below(6);
+        let base: i64 = *rng.pick(&[0i64, 1_000_000_007, 300_000_007, -1_200_000_000, 94_906_267, 1 << 30, 3]);
+        let shape = rng.below(3); // 0: equal values, 1: small spread, 2: mixed signs
+        let vals: Vec<i64> = (0..n).map(|_| match shape {
+            0 => base,
+            1 => base + rng.range(-3, 4),
+            _ => (if rng.chance(1, 2) { -base } else { base }) + rng.range(-3, 4),
+        }).collect();
+        let lines: Vec<String> = vals.iter().map(|v| format!("a;{};;;~;;;", v)).collect();
+        let text = "SELECT VARIANCE(v), STDDEV(v), COUNT(*) FROM t";
+        let desc = format!("defs={} query={} input={:?}", C04_DEF, text, lines);
+        let rows: Vec<Vec<Value>> = vals.iter().map(|v| { let mut r = vec![Value::Null; NCOLS]; r[V] = Value::Int(*v); r }).collect();
+        let refs: Vec<&Vec<Value>> = rows.iter().collect();
+        let want = vec![vec![ref_aggregate(&AggK::Stddev(V, true), &refs), ref_aggregate(&AggK::Stddev(V, false), &refs), Value::Int(n as i64)]];
+        run.oracle_checks += 1;
+        let outcome = match run_engine_batch(C04_DEF, text, &lines) {
+            RowsOutcome::Rows { rows: got, .. } => {
+                let same = got.len() == 1 && got[0].len() == 3 && got[0].iter().zip(want[0].iter()).all(|(x, y)| bits_equal(x, y));
+                if !same {
+                    run.fail(desc.clone(), "int-variance-is-not-the-rounded-exact-quotient", format!("implementation table {:?} but the exact numerator and denominator of the variance give {:?}", got, want));
+                }
+                "ok"
+            }
+            RowsOutcome::Error(e) => { run.fail(desc.clone(), "aggregate-error-on-typed-statement", format!("implementation reports `{}` but the values give {:?}", e, want)); "err" }
+            RowsOutcome::Panic(msg) => { run.fail(desc.clone(), "panic:aggregate", msg); "panic" }
+        };
+        run.count(&format!("bigint-variance:{}", outcome));
+        if let Ok(prepared) = prepare(C04_DEF, text) {
+            let files = vec![join_lines(&lines)];
+            let result = run_files(&prepared, &files);
+            if let Some(case) = batch_case(&prepared, b"", &files, None) {
+                run.case_with_desc(case, result.wire(), format!("bigint-variance|shape{}|n{}|{}", shape, n.min(3), outcome), desc);
+            }
         }
     }
     run.notes.push("stream 1: free-form aggregate statements (1-4 select items mixing keys, aggregates, transforms; WHERE/GROUP BY/HAVING) over 0-30 lines with 5-80% NULL fields; stream 2: typed statements over TEXT/INT/REAL/BOOLEAN/TIMESTAMP columns with per-(group, column) NULL rates of 0/30/100%, single-row groups, p in {0, .5, .99, 1}, HAVING with hidden aggregates, arithmetic wrappers — compared with an independent reference".to_owned());
